@@ -46,6 +46,7 @@ def run(ck, prog):
     ck.attempt(_geometry, ck, prog)
     ck.attempt(_init_geometry, ck, prog)
     ck.attempt(_outputs, ck, prog)
+    ck.attempt(_logs_fresh, ck, prog)
     ck.attempt(_route, ck, prog)
 
 
@@ -431,6 +432,132 @@ def _outputs(ck, prog):
         ck.shape(k.endswith(".kappa()") or k in ("kold", "knew"), "seqlog: kappa operand form", f.loc(n))
         ok = k == sq + ".kappa()" or (k == "kold" and sq == "oseq")
         ck.ob("TEMPLATE-output", construct, ok, expected="seqlog line = (X.kappa(), X) for one object X", found=[k, sq], slot="seqlog", where=f.loc(n))
+
+
+def _logs_fresh(ck, prog):
+    """LOG-fresh: writeLog appends.  A log of this run agrees with this run only if the file was created (truncated) by mklog in this run: the
+    path handed to every writeLog call must be a value returned by mklog - followed through locals, list/tuple elements, comprehensions,
+    zip/for targets, pop()/subscripts and helpers of the class.  'C' created by mklog, 'U' certainly a bare path, None unknown."""
+    f0 = prog.fn(WL, "WangLandauMachine.run_normal_WL")
+
+    def join(vals):
+        vals = set(vals)
+        if not vals:
+            return None
+        if vals == {"C"}:
+            return "C"
+        if vals == {"U"}:
+            return "U"                 # every way of reaching this value gives a bare path
+        return None
+
+    def created(f, e, depth=0, seen=()):
+        if depth > 10 or e is None:
+            return None
+        if isinstance(e, ast.Call):
+            fn = e.func
+            nm = fn.attr if isinstance(fn, ast.Attribute) else getattr(fn, "id", None)
+            if nm == "mklog":
+                return "C"
+            if unparse(fn) in ("os.path.join", "str", "os.path.abspath", "os.path.normpath") or (isinstance(fn, ast.Attribute) and fn.attr in ("format", "join") and isinstance(fn.value, ast.Constant)):
+                return "U"
+            if nm in ("list", "tuple", "sorted", "reversed", "iter", "next") and e.args:
+                return created(f, e.args[0], depth + 1, seen)
+            if nm == "zip":
+                return None            # handled at the unpacking target
+            if isinstance(fn, ast.Attribute) and fn.attr == "pop":
+                return created(f, fn.value, depth + 1, seen)
+            callee = prog.resolve_call(f, e)
+            if callee is not None and callee.mod.rel == WL:
+                from lcsa import bind as _b
+                return join(created(callee, r.value, depth + 1, ()) for r in _b.returns_of(callee) if r.value is not None)
+            return None
+        if isinstance(e, (ast.Constant, ast.JoinedStr)) or (isinstance(e, ast.BinOp) and isinstance(e.op, (ast.Add, ast.Mod))):
+            return "U" if not isinstance(e, ast.Constant) or isinstance(e.value, str) else None
+        if isinstance(e, (ast.List, ast.Tuple)):
+            return join(created(f, x, depth + 1, seen) for x in e.elts)
+        if isinstance(e, (ast.ListComp, ast.GeneratorExp)):
+            return created(f, e.elt, depth + 1, seen)
+        if isinstance(e, ast.Subscript):
+            return created(f, e.value, depth + 1, seen)
+        if isinstance(e, ast.Name):
+            if e.id in seen:
+                return None
+            vals = []
+            for n in ast.walk(f.node):
+                if isinstance(n, ast.Assign):
+                    for t in n.targets:
+                        if isinstance(t, ast.Name) and t.id == e.id:
+                            vals.append(created(f, n.value, depth + 1, seen + (e.id,)))
+                        elif isinstance(t, (ast.Tuple, ast.List)) and any(isinstance(x, ast.Name) and x.id == e.id for x in t.elts):
+                            vals.append(created(f, n.value, depth + 1, seen + (e.id,)))       # an element of what is unpacked
+                elif isinstance(n, (ast.For, ast.comprehension)):
+                    tg = n.target
+                    it = n.iter
+                    names = [x for x in ast.walk(tg) if isinstance(x, ast.Name) and x.id == e.id]
+                    if not names:
+                        continue
+                    if isinstance(it, (ast.Tuple, ast.List)) and isinstance(tg, ast.Tuple) and it.elts and all(isinstance(r_, (ast.Tuple, ast.List)) and len(r_.elts) == len(tg.elts) for r_ in it.elts):
+                        # a display of rows unpacked by the loop target: the column the name stands in
+                        for pos, el in enumerate(tg.elts):
+                            if isinstance(el, ast.Name) and el.id == e.id:
+                                vals.append(join(created(f, r_.elts[pos], depth + 1, seen + (e.id,)) for r_ in it.elts))
+                    elif isinstance(it, ast.Call) and getattr(it.func, "id", None) == "zip" and isinstance(tg, ast.Tuple):
+                        for pos, el in enumerate(tg.elts):
+                            if any(isinstance(x, ast.Name) and x.id == e.id for x in ast.walk(el)) and pos < len(it.args):
+                                vals.append(created(f, it.args[pos], depth + 1, seen + (e.id,)) if isinstance(el, ast.Name) else None)
+                    else:
+                        vals.append(created(f, it, depth + 1, seen + (e.id,)))
+            if e.id in f.params():
+                vals.append(None)
+            return join(vals) if None not in vals else None
+        return None
+    seen_f, work, n = set(), [f0], 0
+    while work:
+        f = work.pop()
+        if f.key in seen_f:
+            continue
+        seen_f.add(f.key)
+        for c in ast.walk(f.node):
+            if not isinstance(c, ast.Call):
+                continue
+            nm = c.func.attr if isinstance(c.func, ast.Attribute) else getattr(c.func, "id", None)
+            if nm == "writeLog" and c.args:
+                k = created(f, c.args[0])
+                n += 1
+                if k == "U":
+                    ck.ob("LOG-fresh", WL_PATH + ":" + f.qual, False, expected="the log written here was created (emptied) by mklog in this run",
+                          found="%s is a bare path: an earlier run's file of that name is appended to" % unparse(c.args[0]), slot="writeLog:%s" % unparse(c.args[0]), where=f.loc(c),
+                          note="the logs of a run must agree with that run's bookkeeping")
+                elif k == "C":
+                    ck.ob("LOG-fresh", WL_PATH + ":" + f.qual, True, expected="created by mklog", found="created by mklog", slot="writeLog:%s@%d" % (unparse(c.args[0]), c.lineno))
+            else:
+                callee = prog.resolve_call(f, c)
+                if callee is not None and callee.mod.rel == WL and callee.cls == f.cls and callee.name not in ("writeLog", "mklog"):
+                    work.append(callee)
+    ck.count("writeLog call sites traced", n)
+    # ... and mklog really creates: the file is opened for (over)writing, by mklog itself or by the helper it hands the path to
+    mk = prog.fn(WL, "WangLandauMachine.mklog")
+    from lcsa import bind as _b
+
+    def modes(f, depth=0):
+        out = []
+        for c in ast.walk(f.node):
+            if not isinstance(c, ast.Call):
+                continue
+            if getattr(c.func, "id", None) == "open" or unparse(c.func) in ("io.open", "codecs.open"):
+                m = c.args[1] if len(c.args) > 1 else next((k.value for k in c.keywords if k.arg == "mode"), None)
+                out.append(m.value if isinstance(m, ast.Constant) else ("r" if m is None else None))
+            elif depth < 2:
+                callee = prog.resolve_call(f, c)
+                if callee is not None and callee.mod.rel == WL and callee.cls == f.cls:
+                    sf = _b.specialise(prog, f, c, callee) or callee
+                    out += modes(sf, depth + 1)
+        return out
+    ms = modes(mk)
+    ck.shape(bool(ms) and None not in ms, "mklog: the mode every open() it reaches is called with", mk.loc())
+    ck.ob("LOG-fresh", WL_PATH + ":" + mk.qual, any(isinstance(m, str) and m[:1] in ("w", "x") for m in ms) and not any(isinstance(m, str) and m[:1] == "a" for m in ms[:1]),
+          expected="mklog opens the file for writing ('w'): a log of an earlier run is emptied", found=ms, slot="mklog-truncates", where=mk.loc(),
+          note="opened for appending, the new run's lines follow the old run's")
 
 
 def _route(ck, prog):
